@@ -15,7 +15,7 @@ Definition failures {C} (check : C -> bool) (cs : list C) : Z * Z * list Z :=
   let f := failures_from check 0%Z cs in
   (Z.of_nat (length cs), Z.of_nat (length f), firstn 50 f).
 
-Definition list_eqb {A} (eqb : A -> A -> bool) : list A -> list A -> bool :=
+Definition list_eqb {A B} (eqb : A -> B -> bool) : list A -> list B -> bool :=
   fix go l1 l2 := match l1, l2 with
                   | [], [] => true
                   | a :: r1, b :: r2 => eqb a b && go r1 r2
